@@ -372,4 +372,286 @@ theorem LiveSpec.complete {r : EvReq} {k : Nat} {tr : List Fetch} (h : LiveSpec 
       simp only [emittedAll, List.flatMap_cons, List.mem_append] at this ⊢
       exact .inr this
 
+/-! ## the model meets the specification -/
+
+theorem evLoopEnv_spec (c : Cfg) (r : EvReq) : ∀ (fuel : Nat) (env : Nat → List Ev) (s s2 : ESt),
+    (∀ i, Asc (env i)) → evLoopEnv c r fuel env s = .ok s2 →
+    LiveSpec r s.cursor (traceEnv c r fuel env s) ∧
+      ∀ i f, (traceEnv c r fuel env s)[i]? = some f → f.buf = env i := by
+  intro fuel
+  induction fuel with
+  | zero => intro env s s2 _ h; simp [evLoopEnv] at h
+  | succ fuel ih =>
+    intro env s s2 hasc h
+    rcases hp : pass r (env 0) s with ⟨s1, fin⟩
+    have h1 : (pass r (env 0) s).1 = s1 := by rw [hp]
+    have h2 : (pass r (env 0) s).2 = fin := by rw [hp]
+    have hok := fetchOf_ok r (env 0) s (hasc 0)
+    simp only [evLoopEnv, hp] at h
+    cases fin with
+    | true =>
+      have ht : traceEnv c r (fuel + 1) env s = [fetchOf r (env 0) s] := by
+        simp only [traceEnv, h2, ↓reduceIte]
+      rw [ht]
+      refine ⟨.last hok rfl h2, ?_⟩
+      intro i f hi
+      cases i with
+      | zero => simp only [List.getElem?_cons_zero, Option.some.injEq] at hi; rw [← hi]; rfl
+      | succ i => simp at hi
+    | false =>
+      have ht : traceEnv c r (fuel + 1) env s =
+          fetchOf r (env 0) s :: traceEnv c r fuel (fun i => env (i + 1)) (s1.flushEv c) := by
+        simp only [traceEnv, h1, h2, Bool.false_eq_true, ↓reduceIte]
+      rw [ht]
+      simp only at h
+      split at h
+      · cases h
+      · obtain ⟨g1, g2⟩ := ih (fun i => env (i + 1)) (s1.flushEv c) s2 (fun i => hasc (i + 1)) h
+        have hc : (s1.flushEv c).cursor = (fetchOf r (env 0) s).next := by
+          show s1.cursor = (pass r (env 0) s).1.cursor
+          rw [h1]
+        rw [hc] at g1
+        refine ⟨.more hok rfl h2 g1, ?_⟩
+        intro i f hi
+        cases i with
+        | zero => simp only [List.getElem?_cons_zero, Option.some.injEq] at hi; rw [← hi]; rfl
+        | succ i => simp only [List.getElem?_cons_succ] at hi; exact g2 i f hi
+
+/-- as long as nothing was reported, no message that was sent and not the open one holds a report
+(over a live queue a message without any report may have been sent: see `orphan_chunk`) -/
+def EmptyL (s : ESt) : Prop :=
+  s.empty = true → s.attrs = [] ∧ s.evs = [] ∧ ∀ ch ∈ s.done, ch.pieces = [] ∧ ch.events = []
+
+theorem EmptyOk.toL {s : ESt} (h : EmptyOk s) : EmptyL s := by
+  intro he
+  obtain ⟨d, a, e⟩ := h he
+  exact ⟨a, e, by rw [d]; intro ch hch; cases hch⟩
+
+/-- one fetch keeps the invariants of the event section -/
+theorem pass_inv {c : Cfg} (r : EvReq) (b : List Ev) (s : ESt) (h : EInv c s) :
+    EInv c (pass r b s).1 ∧ (pass r b s).1.flatEv = s.flatEv ++ (passLog r b s).map evData ∧
+      (pass r b s).1.flatAt = s.flatAt ∧ (EmptyL s → EmptyL (pass r b s).1) ∧ (OInv s → OInv (pass r b s).1) := by
+  obtain ⟨h1, h2, h3, h4, h5, h6, h7, h8, h9⟩ := pass_frame r b s
+  refine ⟨⟨?_, ?_, ?_, ?_⟩, ?_, ?_, ?_, ?_⟩
+  · rw [h4]; exact h8 h.usedLe
+  · rw [h4]; exact h.limLe
+  · rw [h1]; exact h.doneOk
+  · rw [h5, h3, h4]; exact h.freshOk
+  · simp only [ESt.flatEv, h1, h6, List.reverse_append, List.reverse_reverse, List.append_assoc]
+  · simp only [ESt.flatAt, h1, h2]
+  · intro he hemp
+    rw [h9, Bool.and_eq_true, List.isEmpty_iff] at hemp
+    obtain ⟨a, e, d⟩ := he hemp.1
+    refine ⟨by rw [h2]; exact a, by rw [h6, e, hemp.2]; rfl, by rw [h1]; exact d⟩
+  · intro ho
+    unfold OInv ESt.all at *
+    rw [h1, h2]
+    exact ordered_last _ _ _ ho rfl
+
+theorem flushEv_emptyL {c : Cfg} {s : ESt} (h : EmptyL s) : EmptyL (s.flushEv c) := by
+  intro he
+  obtain ⟨a, e, d⟩ := h he
+  refine ⟨rfl, rfl, ?_⟩
+  intro ch hch
+  simp only [ESt.flushEv, List.mem_cons] at hch
+  rcases hch with rfl | hch
+  · simp [a, e]
+  · exact d ch hch
+
+theorem evLoopEnv_inv {c : Cfg} (hw : c.WF) (r : EvReq) : ∀ (fuel : Nat) (env : Nat → List Ev) (s s2 : ESt),
+    EInv c s → evLoopEnv c r fuel env s = .ok s2 →
+    EInv c s2 ∧ s2.flatEv = s.flatEv ++ (emittedAll (traceEnv c r fuel env s)).map evData ∧
+      s2.flatAt = s.flatAt ∧ (EmptyL s → EmptyL s2) ∧ (OInv s → OInv s2) := by
+  intro fuel
+  induction fuel with
+  | zero => intro env s s2 _ h; simp [evLoopEnv] at h
+  | succ fuel ih =>
+    intro env s s2 hi h
+    rcases hp : pass r (env 0) s with ⟨s1, fin⟩
+    have h1 : (pass r (env 0) s).1 = s1 := by rw [hp]
+    have h2 : (pass r (env 0) s).2 = fin := by rw [hp]
+    obtain ⟨p1, p2, p3, p4, p5⟩ := pass_inv r (env 0) s hi
+    rw [h1] at p1 p2 p3 p4 p5
+    simp only [evLoopEnv, hp] at h
+    cases fin with
+    | true =>
+      have ht : traceEnv c r (fuel + 1) env s = [fetchOf r (env 0) s] := by
+        simp only [traceEnv, h2, ↓reduceIte]
+      simp only [Except.ok.injEq] at h
+      subst h
+      rw [ht]
+      refine ⟨p1, ?_, p3, p4, p5⟩
+      rw [p2]; simp [emittedAll, fetchOf]
+    | false =>
+      have ht : traceEnv c r (fuel + 1) env s =
+          fetchOf r (env 0) s :: traceEnv c r fuel (fun i => env (i + 1)) (s1.flushEv c) := by
+        simp only [traceEnv, h1, h2, Bool.false_eq_true, ↓reduceIte]
+      rw [ht]
+      simp only at h
+      split at h
+      · cases h
+      · obtain ⟨f1, f2, f3, _, _⟩ := flushEv_ok hw p1
+        obtain ⟨g1, g2, g3, g4, g5⟩ := ih (fun i => env (i + 1)) (s1.flushEv c) s2 f1 h
+        refine ⟨g1, ?_, by rw [g3, f3, p3], fun he => g4 (flushEv_emptyL (p4 he)),
+          fun ho => g5 (flushEv_ordered (p5 ho))⟩
+        rw [g2, f2, p2]
+        simp [emittedAll, fetchOf]
+
+/-- the number of fetches: every fetch but the first and the last writes at least one event -/
+theorem traceEnv_length (c : Cfg) (r : EvReq) : ∀ (fuel : Nat) (env : Nat → List Ev) (s s2 : ESt),
+    evLoopEnv c r fuel env s = .ok s2 →
+    (traceEnv c r fuel env s).length ≤ (emittedAll (traceEnv c r fuel env s)).length +
+      (if s.fresh && s.used == s.base then 1 else 2) := by
+  intro fuel
+  induction fuel with
+  | zero => intro env s s2 h; simp [evLoopEnv] at h
+  | succ fuel ih =>
+    intro env s s2 h
+    rcases hp : pass r (env 0) s with ⟨s1, fin⟩
+    have h1 : (pass r (env 0) s).1 = s1 := by rw [hp]
+    have h2 : (pass r (env 0) s).2 = fin := by rw [hp]
+    obtain ⟨_, _, q3, _, q5, _, q7, _, _⟩ := pass_frame r (env 0) s
+    rw [h1] at q3 q5 q7
+    simp only [evLoopEnv, hp] at h
+    cases fin with
+    | true =>
+      have ht : traceEnv c r (fuel + 1) env s = [fetchOf r (env 0) s] := by
+        simp only [traceEnv, h2, ↓reduceIte]
+      rw [ht]
+      simp only [List.length_singleton]
+      split <;> omega
+    | false =>
+      have ht : traceEnv c r (fuel + 1) env s =
+          fetchOf r (env 0) s :: traceEnv c r fuel (fun i => env (i + 1)) (s1.flushEv c) := by
+        simp only [traceEnv, h1, h2, Bool.false_eq_true, ↓reduceIte]
+      rw [ht]
+      simp only at h
+      split at h
+      · cases h
+      · rename_i hnb
+        have g := ih (fun i => env (i + 1)) (s1.flushEv c) s2 h
+        have hfl : ((s1.flushEv c).fresh && (s1.flushEv c).used == (s1.flushEv c).base) = true := by
+          simp [ESt.flushEv]
+        rw [hfl] at g
+        simp only [↓reduceIte] at g
+        simp only [List.length_cons, emittedAll, List.flatMap_cons, List.length_append] at g ⊢
+        have hem : (fetchOf r (env 0) s).emitted = passLog r (env 0) s := rfl
+        rw [hem]
+        split
+        · rename_i hfb
+          -- an empty event message in which the fetch wrote nothing would have ended the interaction
+          have hpos : 0 < (passLog r (env 0) s).length := by
+            cases hl : passLog r (env 0) s with
+            | cons a l => simp
+            | nil =>
+              exfalso
+              rw [hl] at q7
+              simp only [List.map_nil, sumEv, List.sum_nil, Nat.add_zero] at q7
+              apply hnb
+              rw [q5, q3, q7]; exact hfb
+          omega
+        · omega
+
+/-! ## the loop of `Model/ChunkLive.lean` -/
+
+/-- the buffer the `i`-th fetch sees -/
+def envOf : List Ev → List (List Ev) → Nat → List Ev
+  | b, [], _ => b
+  | b, _ :: _, 0 => b
+  | _, b2 :: l, i + 1 => envOf b2 l i
+
+/-- the buffer after the last push -/
+def lastOf : List Ev → List (List Ev) → List Ev
+  | b, [] => b
+  | _, b2 :: l => lastOf b2 l
+
+/-- the number of fetches that always suffices: one per scheduled change of the queue, then one per
+event of the final queue, plus one -/
+def liveFuel (b : List Ev) (later : List (List Ev)) : Nat := later.length + (lastOf b later).length + 1
+
+theorem envOf_nil (b : List Ev) : envOf b [] = fun _ => b := by
+  funext i; cases i <;> rfl
+
+theorem pass_buf_irrel (r : EvReq) (b0 : List Ev) : ∀ (b : List Ev) (s : ESt),
+    pass { r with buf := b0 } b s = pass r b s := by
+  have h1 : ∀ k e, ({ r with buf := b0 } : EvReq).inRange k e = r.inRange k e := fun _ _ => rfl
+  have h2 : ∀ e, ({ r with buf := b0 } : EvReq).passes e = r.passes e := fun _ => rfl
+  intro b
+  induction b with
+  | nil => intro s; rfl
+  | cons e es ih => intro s; simp only [pass, h1, h2, ih]
+
+/-- the frozen loop is the loop over the constant environment -/
+theorem evLoop_eq_env (c : Cfg) (r : EvReq) (b : List Ev) : ∀ (fuel : Nat) (s : ESt),
+    evLoop c { r with buf := b } fuel s = evLoopEnv c r fuel (fun _ => b) s := by
+  intro fuel
+  induction fuel with
+  | zero => intro s; rfl
+  | succ fuel ih =>
+    intro s
+    simp only [evLoop, evLoopEnv, pass_buf_irrel]
+    rcases hp : pass r b s with ⟨s1, fin⟩
+    cases fin with
+    | true => rfl
+    | false =>
+      simp only
+      split
+      · rfl
+      · exact ih _
+
+theorem evLoopLive_eq_env (c : Cfg) (r : EvReq) : ∀ (later : List (List Ev)) (b : List Ev) (s : ESt),
+    evLoopLive c r later b s = evLoopEnv c r (liveFuel b later) (envOf b later) s := by
+  intro later
+  induction later with
+  | nil =>
+    intro b s
+    have hf : liveFuel b [] = b.length + 1 := by simp [liveFuel, lastOf]
+    rw [hf, envOf_nil]
+    simp only [evLoopLive]
+    exact evLoop_eq_env c r b _ s
+  | cons b2 l ih =>
+    intro b s
+    have hf : liveFuel b (b2 :: l) = liveFuel b2 l + 1 := by
+      simp only [liveFuel, lastOf, List.length_cons]; omega
+    have he : (fun i => envOf b (b2 :: l) (i + 1)) = envOf b2 l := rfl
+    have h0 : envOf b (b2 :: l) 0 = b := rfl
+    rw [hf]
+    simp only [evLoopLive, evLoopEnv, he, h0]
+    rcases hp : pass r b s with ⟨s1, fin⟩
+    cases fin with
+    | true => rfl
+    | false =>
+      simp only
+      split
+      · rfl
+      · exact ih _ _
+
+/-- the fetches of `evLoopLive` -/
+def liveTrace (c : Cfg) (r : EvReq) (later : List (List Ev)) (b : List Ev) (s : ESt) : List Fetch :=
+  traceEnv c r (liveFuel b later) (envOf b later) s
+
+/-- **termination**: for a finite schedule of changes the live loop never runs out of fetches: it
+ends with a state or with `ResourceExhausted` (an event that fits no message) -/
+theorem evLoopLive_err (c : Cfg) (r : EvReq) : ∀ (later : List (List Ev)) (b : List Ev) (s : ESt) (e : Err),
+    evLoopLive c r later b s = .error e → e = .tooBig := by
+  intro later
+  induction later with
+  | nil =>
+    intro b s e h
+    simp only [evLoopLive] at h
+    rw [evLoop_eq_sweep c { r with buf := b } b [] s b.length (Nat.le_refl _) (by simp) (by simp)] at h
+    exact sweep_err _ _ _ _ h
+  | cons b2 l ih =>
+    intro b s e h
+    simp only [evLoopLive] at h
+    rcases hp : pass r b s with ⟨s1, fin⟩
+    rw [hp] at h
+    cases fin with
+    | true => cases h
+    | false =>
+      simp only at h
+      split at h
+      · injection h with h; exact h.symm
+      · exact ih _ _ _ h
+
 end Chunk
